@@ -159,18 +159,17 @@ func (s *indexKVStore) CollectKVs(bucketID uint32, values *roaring.Bitmap, resul
 		}
 	}
 
-	snapshot := s.getSnapshot()
+	s.lock.RLock()
+	collect(s.mutable)
+	collect(s.immutable)
+	snapshot := s.snapshot
+	s.lock.RUnlock()
 
 	reader := v1.NewIndexKVReader(snapshot)
 	bucket, err := reader.GetBucket(bucketID)
 	if err != nil {
 		return err
 	}
-
-	s.lock.RLock()
-	collect(s.mutable)
-	collect(s.immutable)
-	s.lock.RUnlock()
 
 	if bucket != nil {
 		defer bucket.Release()
@@ -349,6 +348,10 @@ func (s *indexKVStore) getOrCreateValue(bucketID uint32, key []byte,
 
 	// create new value
 	if createFn == nil {
+		if s.getSnapshot() != snapshot {
+			// memory store was flushed after the lookup started(key maybe moved from memory into new file), lookup again
+			return s.getOrCreateValue(bucketID, key, createFn)
+		}
 		return 0, false, false, nil
 	}
 	id, isNew, err = s.createValue(bucketID, key, snapshot, createFn)
@@ -416,7 +419,12 @@ func (s *indexKVStore) GetValueFromMem(bucketID uint32, key []byte) (uint32, boo
 
 // FindValuesByRegexp returns values by regexp expr.
 func (s *indexKVStore) FindValuesByRegexp(bucketID uint32, rp *regexp.Regexp, ids []uint32) ([]uint32, error) {
-	snapshot := s.getSnapshot()
+	// find from memory and get the snapshot under same lock(flush swaps both under write lock)
+	s.lock.RLock()
+	ids = s.findValuesByRegexp(s.mutable, bucketID, rp, ids)
+	ids = s.findValuesByRegexp(s.immutable, bucketID, rp, ids)
+	snapshot := s.snapshot
+	s.lock.RUnlock()
 
 	reader := v1.NewIndexKVReader(snapshot)
 	bucket, err := reader.GetBucket(bucketID)
@@ -427,12 +435,6 @@ func (s *indexKVStore) FindValuesByRegexp(bucketID uint32, rp *regexp.Regexp, id
 		defer bucket.Release()
 		ids = bucket.FindValuesByRegexp(rp, ids)
 	}
-	// find from memory
-	s.lock.RLock()
-	defer s.lock.RUnlock()
-
-	ids = s.findValuesByRegexp(s.mutable, bucketID, rp, ids)
-	ids = s.findValuesByRegexp(s.immutable, bucketID, rp, ids)
 	return ids, nil
 }
 
@@ -482,7 +484,12 @@ func (s *indexKVStore) findValuesByLike(bucketID uint32,
 	prefix, subKey []byte,
 	check func(a, b []byte) bool, ids []uint32,
 ) ([]uint32, error) {
-	snapshot := s.getSnapshot()
+	s.lock.RLock()
+	ids = s.findValuesByLikeFormMem(s.mutable, bucketID, subKey, check, ids)
+	ids = s.findValuesByLikeFormMem(s.immutable, bucketID, subKey, check, ids)
+	snapshot := s.snapshot
+	s.lock.RUnlock()
+
 	reader := v1.NewIndexKVReader(snapshot)
 	bucket, err := reader.GetBucket(bucketID)
 	if err != nil {
@@ -492,12 +499,6 @@ func (s *indexKVStore) findValuesByLike(bucketID uint32,
 		defer bucket.Release()
 		ids = bucket.FindValuesByLike(prefix, subKey, check, ids)
 	}
-
-	s.lock.RLock()
-	defer s.lock.RUnlock()
-
-	ids = s.findValuesByLikeFormMem(s.mutable, bucketID, subKey, check, ids)
-	ids = s.findValuesByLikeFormMem(s.immutable, bucketID, subKey, check, ids)
 	return ids, nil
 }
 
